@@ -1,1 +1,12 @@
-#[allow(unused_imports)] use super::*;
+#[allow(unused_imports)]
+use super::*;
+
+pub fn msg_fields(m: &RotationMessage) -> (u64, Vec<u8>, Option<Vec<u8>>) {
+    (m.message_id, m.propose.bytes().to_vec(), m.confirm.as_ref().map(|c| c.bytes().to_vec()))
+}
+
+pub fn state_view(s: &RotationState) -> (u64, bool, bool, bool, bool) {
+    (s.message_id, s.timeout, s.proposed.is_some(), s.pending.is_some(), s.confirmed.is_some())
+}
+
+pub use super::{RotatedKey, RotationMessage, RotationState};
